@@ -268,16 +268,13 @@ def match_instances(
 
         Ground truth instances that remain unmatched are considered false negatives.
     """
-    # Sort predicted instances by score.
-    frame_pr_match_instances = get_instances(frame_pr)
+    # Sort predicted instances by score (instances without a score, i.e. user
+    # instances, are not predictions and are ignored).
+    frame_pr_match_instances = [
+        m for m in get_instances(frame_pr) if hasattr(m.instance, "score")
+    ]
 
-    scores_pr = np.array(
-        [
-            m.instance.score
-            for m in frame_pr_match_instances
-            if hasattr(m.instance, "score")
-        ]
-    )
+    scores_pr = np.array([m.instance.score for m in frame_pr_match_instances])
     idxs_pr = np.argsort(-scores_pr, kind="mergesort")  # descending
     scores_pr = scores_pr[idxs_pr]
 
